@@ -128,7 +128,7 @@ pub fn gen(id: &str, tier: &str, rng: &mut Rng, emit: &mut dyn FnMut(Op)) {
             let n = if tier == "thorough" { 60000 } else { 4000 };
             fuzz(&pool, n, rng, emit);
         }
-        "C13" => gen_c13(tier, rng, emit),
+        "C13" => with_oracle_fuzz(tier, rng, emit, &gen_c13),
         _ => {
             eprintln!("dig: unknown property {}", id);
             std::process::exit(2);
